@@ -240,7 +240,7 @@ func runSysWorker() {
 						}
 						return "rt-ok"
 					})
-					return fmt.Sprintf("send %s %s %s", ifi, tree6full(cp.Resp), rt)
+					return fmt.Sprintf("send %s %s %d %s %s", ifi, hx(cp.Peer.IP.To16()), cp.Peer.Port, tree6full(cp.Resp), rt)
 				})
 			})
 			res = parsed + " ; " + r
@@ -300,7 +300,7 @@ var sysValid = map[string][2][]string{
 	"staticroute":   {{"10.20.0.0/16,10.0.0.254", "0.0.0.0/0,10.0.0.1 192.168.7.0/24,192.168.7.1"}, {"-"}},
 	"ipv6only":      {{"300s", "0s"}, {"-"}},
 	"autoconfigure": {{"DoNotAutoConfigure", "AutoConfigure"}, {"-"}},
-	"nbp":           {{"tftp://10.0.0.5/pxelinux.0", "http://boot.example.com/b.efi"}, {"http://[2001:db8::1]/boot.ipxe?params=a%20b", "tftp://[2001:db8::5]/x"}},
+	"nbp":           {{"tftp://10.0.0.5/pxelinux.0", "http://boot.example.com/b.efi", "tftp://10.0.0.5/my%20nbp.efi", "ftp://h/x^y"}, {"http://[2001:db8::1]/boot.ipxe?params=a%20b", "tftp://[2001:db8::5]/x"}},
 	"sleep":         {{"1ms", "0s"}, {"1ms", "0s"}},
 }
 
@@ -381,7 +381,7 @@ func genSys(c *ctx) {
 						ownSID = net.ParseIP(args[0]).To4()
 					}
 				}
-			} else if v, ok := sysValid[sp.name]; ok && c.rng.Intn(10) < 6 {
+			} else if v, ok := sysValid[sp.name]; ok && c.rng.Intn(10) < 6 && v[b2i(v6)][0] != "-" {
 				// mostly configurations that are accepted, so that chains get long
 				args = strings.Fields(v[b2i(v6)][c.rng.Intn(len(v[b2i(v6)]))])
 			} else {
